@@ -220,6 +220,7 @@ func (r *Runtime) Log(site string, kv ...interface{}) {
 		}
 	}
 	r.events = append(r.events, ev)
+	r.counts[site]++
 	r.mu.Unlock()
 }
 
@@ -250,6 +251,12 @@ func (r *Runtime) Events() []Event {
 	out := make([]Event, len(r.events))
 	copy(out, r.events)
 	return out
+}
+
+func (r *Runtime) Len() int {
+	r.mu.Lock()
+	defer r.mu.Unlock()
+	return len(r.events)
 }
 
 func (r *Runtime) Count(site string) int {
